@@ -411,7 +411,9 @@ func genPoints(r *vh.Rand, dups bool) ([]point, int) {
 	for i := 0; i < n; i++ {
 		p := point{Metric: 0, Host: r.Intn(nh), Vals: map[int]int{}}
 		p.Zone = p.Host % 3
-		if span > 40 && r.Chance(40) {
+		if span > 40 && i == 0 {
+			p.Slot = 360 // the first slot of the second family hour holds data
+		} else if span > 40 && r.Chance(40) {
 			p.Slot = 355 + r.Intn(20)
 		} else {
 			p.Slot = r.Intn(40)
@@ -567,6 +569,16 @@ func genQuery(r *vh.Rand, pts []point, dups, flushed bool) *queryJ {
 		}
 	}
 	switch r.Intn(6) {
+	case 2:
+		q.Lo, q.Hi = 0, 60
+		if maxSlot >= 360 {
+			// the range ends (inclusively) on the first slot of the next family, or starts there
+			if r.Bool() {
+				q.Lo, q.Hi = r.Range(0, 358), 360
+			} else {
+				q.Lo, q.Hi = 360, maxSlot+3
+			}
+		}
 	case 0:
 		q.Lo, q.Hi = r.Range(1, 12), r.Range(20, 45)
 	case 1:
